@@ -39,6 +39,16 @@ fn twin_case<T: Sc>(rng: &mut Rng, case: u64, out: &mut CaseOut) {
         }
         out.count("cases_with_duplicated_or_dependent_columns");
     }
+    // one contaminated column: a NaN / infinite observation in one right-hand side must not reach the others
+    let bad_col: Option<usize> = if s >= 2 && rng.chance(0.15) {
+        let j = rng.below(s);
+        let i = rng.below(n);
+        spec.y.set(i, j, *rng.pick(&[f64::NAN, f64::INFINITY, f64::NEG_INFINITY]));
+        out.count("cases_with_a_non_finite_observation_in_one_column");
+        Some(j)
+    } else {
+        None
+    };
     spec.alpha0 = wide_alpha(rng, &g.alpha_true);
     out.seen("S", format!("{s}"));
     out.seen("flavour", if spec.par { "parallel" } else { "sequential" });
@@ -78,6 +88,10 @@ fn twin_case<T: Sc>(rng: &mut Rng, case: u64, out: &mut CaseOut) {
             let dn = dnorms::<T>(&spec, &alpha, &v.w);
             let sp = snap(&permuted, true);
             for j in 0..s {
+                if Some(j) == bad_col {
+                    // the contaminated column itself has no finite reference
+                    continue;
+                }
                 out.evals += 1;
                 let sj = snap(&singles[j], true);
                 // block j of the MRHS problem vs the single problem for column j
@@ -289,7 +303,7 @@ fn rankdef_case<T: Sc>(rng: &mut Rng, case: u64, out: &mut CaseOut) {
 }
 
 pub fn run(ctx: &Ctx) {
-    ctx.rule("mrhs-vs-singles: an S-column problem (S in {1,2,3,5,8,12}, incl. duplicated and linearly dependent columns, weights, both flavours, f32/f64), the S single-column problems and a column-permuted S-column problem driven through the same alpha-history (1..4 wide updates); per column: coefficient column, residual block and every Jacobian block compared with kappa-scaled twin tolerances, total row counts N·S; S=1: bitwise agreement with the single problem recorded. rank-deficient: the same comparison at states with two exactly equal decay constants and a user threshold (tolerances scaled with the condition number of the kept part). permuted-fit: fits of well-separated decay models with 2..5 columns, fitted alpha equal to 1e-6 (f64) under permutation and coefficients permuted. non-trivial = S>1 and residual > 1e-3 |Y_w|");
+    ctx.rule("mrhs-vs-singles: an S-column problem (S in {1,2,3,5,8,12}, incl. duplicated and linearly dependent columns, in 15 % of the cases one NaN/infinite observation in one column - the other columns must still equal their single problems -, weights, both flavours, f32/f64), the S single-column problems and a column-permuted S-column problem driven through the same alpha-history (1..4 wide updates); per column: coefficient column, residual block and every Jacobian block compared with kappa-scaled twin tolerances, total row counts N·S; S=1: bitwise agreement with the single problem recorded. rank-deficient: the same comparison at states with two exactly equal decay constants and a user threshold (tolerances scaled with the condition number of the kept part). permuted-fit: fits of well-separated decay models with 2..5 columns, fitted alpha equal to 1e-6 (f64) under permutation and coefficients permuted. non-trivial = S>1 and residual > 1e-3 |Y_w|");
     let t = ctx.tier;
     let b = t.pick(30.0, 900.0);
     ctx.run_cases("mrhs-vs-singles", t.pick(5000, 240000), b, |r, c, o| if c % 3 == 0 { twin_case::<f32>(r, c, o) } else { twin_case::<f64>(r, c, o) });
